@@ -360,15 +360,16 @@ def cat_cases(ctx):
                 cases.append(mk(int(rng.integers(17, 41)), int(rng.integers(40, 201)), subset, rsd, variant=variant,
                                 ranks=bool(variant)))
     if not ctx.quick:
-        for _ in range(60):
-            cases.append(mk(int(rng.integers(0, 41)), int(rng.integers(0, 201)), hg.SUBSETS[int(rng.integers(0, 7))],
+        for k in range(300):
+            hmax, pmax = (41, 201) if k % 3 else (130, 700)
+            cases.append(mk(int(rng.integers(0, hmax)), int(rng.integers(0, pmax)), hg.SUBSETS[int(rng.integers(0, 7))],
                             bool(rng.integers(0, 2)), variant=int(rng.integers(0, 2)), ranks=bool(rng.integers(0, 2))))
     return cases
 
 
 # --------------------------------------------------------------------------- fast_concatenate
 
-def check_fastconcat(ctx, nmax=12, tmax=16, dtypes=(np.int64, np.float64)):
+def check_fastconcat(ctx, nmax=12, tmax=16, dtypes=(np.int64, np.float64), only=None):
     st = real()
     fc = st['G'].fast_concatenate
     cases = []
@@ -378,7 +379,8 @@ def check_fastconcat(ctx, nmax=12, tmax=16, dtypes=(np.int64, np.float64)):
         for N1 in range(0, nmax + 1):
             for N2 in range(0, nmax + 1):
                 for T in range(1, tmax + 1):
-                    cases.append((np.dtype(dt).name, N1, N2, T))
+                    if only is None or (N1, N2, T) in only:
+                        cases.append((np.dtype(dt).name, N1, N2, T))
     # model once per (N1, N2, T): element values are labels
     for (dn, N1, N2, T) in cases:
         if dn == np.dtype(dtypes[0]).name:
@@ -427,7 +429,8 @@ def check_fastconcat(ctx, nmax=12, tmax=16, dtypes=(np.int64, np.float64)):
                     ctx.disagree('fastconcat N=0 branch returns a copy', c, kind, 'copy')
         if isinstance(res, np.ndarray) and res.size and N1 and N2:
             res[...] = -1                       # poison before release
-    ctx.extra['fastconcat_scope'] = 'all N1, N2 in 0..%d, T in 1..%d, dtypes %s' % (nmax, tmax, [np.dtype(d).name for d in dtypes])
+    if only is None:
+        ctx.extra['fastconcat_scope'] = 'all N1, N2 in 0..%d, T in 1..%d, dtypes %s' % (nmax, tmax, [np.dtype(d).name for d in dtypes])
 
 
 # --------------------------------------------------------------------------- rint(linspace)
@@ -551,21 +554,31 @@ def check_rejects_zero_threads(ctx):
         ctx.disagree('Nthread = 0', c, m, impl)
 
 
-def run(ctx):
+def run_inner(ctx):
+    import time
+    t0 = time.time()
     real()
     cc = corpus_cases()
     ctx.count('corpus', len(cc))
     for c in cc:
         dispatch(ctx, c)
     check_rejects_zero_threads(ctx)
+    t1 = time.time()
     for c in cat_cases(ctx):
         if len(ctx.failures) >= 12:
             ctx.count('cat:sweep-cut-short-after-failures')
             break
         check_cat_case(ctx, c)
-    check_fastconcat(ctx, dtypes=(np.int64, np.float64))
+    t2 = time.time()
+    check_fastconcat(ctx, nmax=ctx.pick(12, 18), dtypes=(np.int64, np.float64))
+    t3 = time.time()
     check_blocks(ctx)
+    t4 = time.time()
     check_searchsorted(ctx, ctx.pick(150, 1500))
+    t5 = time.time()
+    ctx.extra['wall_parts_s'] = {'import+compile+corpus': round(t1 - t0, 1), 'catalogue sweep': round(t2 - t1, 1),
+                                 'fast_concatenate': round(t3 - t2, 1), 'blocks': round(t4 - t3, 1),
+                                 'searchsorted': round(t5 - t4, 1)}
     ctx.exhaustive = True
     ctx.extra['exhaustive_parts'] = ['fast_concatenate (N1, N2 <= 12, T <= 16)', 'rint(linspace) (H <= 300, T <= 64)',
                                      'host-table sizes 0..40 x thread counts 1..16']
@@ -579,7 +592,8 @@ def dispatch(ctx, c):
         c = {k: v for k, v in c.items() if k not in ('n', 'fam')}
         check_cat_case(ctx, c)
     elif kind == 'fastconcat':
-        check_fastconcat(ctx, nmax=max(c['N1'], c['N2']), tmax=max(c['T'], 2), dtypes=(np.dtype(c.get('dtype', 'int64')).type,))
+        check_fastconcat(ctx, nmax=max(c['N1'], c['N2']), tmax=c['T'], dtypes=(np.dtype(c.get('dtype', 'int64')).type,),
+                         only={(c['N1'], c['N2'], c['T'])})
     elif kind == 'blocks':
         check_blocks(ctx, hmax=c['H'], tmax=c['T'])
     elif kind == 'searchsorted':
@@ -588,7 +602,7 @@ def dispatch(ctx, c):
         check_rejects_zero_threads(ctx)
 
 
-def intensify(ctx):
+def intensify_inner(ctx):
     """a proof or the correspondence broke: look harder for an input on which the real code is wrong"""
     rng = ctx.rng
     for _ in range(ctx.pick(150, 400)):
@@ -603,7 +617,149 @@ def intensify(ctx):
     check_searchsorted(ctx, 2000)
 
 
-def replay(ctx, doc):
+def replay_inner(ctx, doc):
     c = doc['failure']['case'] if 'failure' in doc else doc
     real()
     dispatch(ctx, c)
+
+
+# --------------------------------------------------------------------------- process isolation
+#
+# A broken two-pass (e.g. fill cursors starting at the wrong offset) writes outside its arrays; glibc then
+# aborts the process some allocations later.  The real code therefore runs in a child process that streams
+# every event (case, count, failure, disagreement) to a file as it happens; the parent replays the events into
+# the real Ctx, so failures found before a crash still produce the VIOLATION verdict.
+
+class EventCtx:
+    def __init__(self, path, tier, seed):
+        self._f = open(path, 'w', buffering=1)
+        self.tier = tier
+        self.seed = seed
+        self.rng = np.random.default_rng(seed)
+        self.failures = []
+        self.disagreements = []
+        self.traces_validated = 0
+        self.extra = {}
+        self.exhaustive = False
+        self.driver = None
+
+    @property
+    def quick(self):
+        return self.tier == 'quick'
+
+    def pick(self, q, t):
+        return q if self.quick else t
+
+    def emit(self, **ev):
+        from vcommon import _jsonable
+        self._f.write(json.dumps(ev, default=_jsonable) + '\n')
+        self._f.flush()
+
+    def case(self, case, nontrivial=True, key=None):
+        self.emit(ev='case', case=case, nontrivial=bool(nontrivial))
+
+    def count(self, key, n=1):
+        self.emit(ev='count', key=key, n=int(n))
+
+    def fail(self, what, case, observed, expected, key=None):
+        self.failures.append(what)
+        self.emit(ev='fail', what=what, case=case, observed=observed, expected=expected, key=key)
+
+    def disagree(self, what, case, model, impl):
+        self.disagreements.append(what)
+        self.emit(ev='disagree', what=what, case=case, model=model, impl=impl)
+
+    def tie(self, what, detail):
+        self.emit(ev='tie', what=what, detail=str(detail)[:3000])
+
+    def finish(self):
+        self.emit(ev='end', traces=self.traces_validated, extra=self.extra, exhaustive=bool(self.exhaustive))
+        self._f.close()
+
+
+def child_main(argv):
+    import traceback
+    import vcommon
+    vcommon.setup_import_path()
+    mode, tier, seed, evpath = argv[0], argv[1], int(argv[2]), argv[3]
+    ctx = EventCtx(evpath, tier, seed)
+    try:
+        ctx.driver = vcommon.Driver(DRIVER)
+        if ctx.driver.error:
+            ctx.tie('driver-build', ctx.driver.error)
+        if mode == 'run':
+            run_inner(ctx)
+        elif mode == 'intensify':
+            intensify_inner(ctx)
+        else:
+            replay_inner(ctx, json.loads(open(argv[4]).read()))
+    except Exception:
+        ctx.tie('harness-exception', traceback.format_exc()[-3000:])
+    ctx.finish()
+
+
+def in_child(ctx, mode, doc=None):
+    import subprocess
+    import vcommon
+    tmp = ctx.tmpdir()
+    evpath = os.path.join(tmp, 'events-%s.jsonl' % mode)
+    cmd = [vcommon.PY, '-B', os.path.abspath(__file__), mode, ctx.tier, str(int(ctx.seed)), evpath]
+    if doc is not None:
+        dpath = os.path.join(tmp, 'replay-doc.json')
+        with open(dpath, 'w') as f:
+            json.dump(doc, f)
+        cmd.append(dpath)
+    p = subprocess.run(cmd, env=vcommon.impl_env(), stdout=subprocess.PIPE, stderr=subprocess.STDOUT, text=True,
+                       timeout=ctx.pick(1500, 3000))
+    ended = False
+    nfail = 0
+    if os.path.exists(evpath):
+        for line in open(evpath):
+            try:
+                ev = json.loads(line)
+            except ValueError:
+                continue                      # a line cut short by a crash
+            k = ev.pop('ev')
+            if k == 'case':
+                ctx.case(ev['case'], nontrivial=ev['nontrivial'])
+            elif k == 'count':
+                ctx.count(ev['key'], ev['n'])
+            elif k == 'fail':
+                nfail += 1
+                ctx.fail(ev['what'], ev['case'], ev['observed'], ev['expected'], key=ev['key'])
+            elif k == 'disagree':
+                ctx.disagree(ev['what'], ev['case'], ev['model'], ev['impl'])
+            elif k == 'tie':
+                ctx.tie(ev['what'], ev['detail'])
+            elif k == 'end':
+                ended = True
+                ctx.traces_validated += ev['traces']
+                ctx.extra.update(ev['extra'])
+                ctx.exhaustive = ctx.exhaustive or ev['exhaustive']
+    if p.returncode != 0 or not ended:
+        tail = (p.stdout or '')[-1500:]
+        if nfail:
+            # the runs that broke the property also corrupted memory; the failures above are the verdict
+            ctx.count('child-crashed-after-failures')
+            vcommon.log('[C10] the process running the real code ended with rc=%s after %d failure(s): %s'
+                        % (p.returncode, nfail, tail[-300:]))
+        else:
+            raise vcommon.Infra('the process running the real code ended with rc=%s before reporting a failure:\n%s'
+                                % (p.returncode, tail))
+
+
+def run(ctx):
+    in_child(ctx, 'run')
+
+
+def intensify(ctx):
+    in_child(ctx, 'intensify')
+
+
+def replay(ctx, doc):
+    in_child(ctx, 'replay', doc)
+
+
+if __name__ == '__main__':
+    import sys
+    child_main(sys.argv[1:])
